@@ -218,7 +218,7 @@ def check_cell(r, case, cell):
                             r.fail("arg-type", "%s %s (%s): type=%r converts %r to %r" % (tag, n, inner, a.type, sample, conv(sample)))
                 except Exception as e:
                     r.fail("arg-type", "%s %s: conversion raised %r" % (tag, n, e))
-            elif inner.startswith("List["):
+            elif inner.startswith("List[") and inner[5:-1] in ("int", "str", "float"):
                 elem = {"int": int, "str": str, "float": float}[inner[5:-1]]
                 conv = a.type or str
                 sample = {"int": "7", "str": "zz", "float": "1.5"}[inner[5:-1]]
